@@ -519,10 +519,11 @@ def check_corr(ctx, M, spec, T, io, ens, variants=CORR_VARIANTS, excludenull=Fal
     case = {"kind": "corr", "trans": spec, "obs": encl(io.vals), "ens": [encl(r) for r in ens]}
     e2 = np.array([[NAN if v is None else v for v in r] for r in ens], dtype=np.float64)
     te = np.asarray(T.forward(e2.copy()), dtype=np.float64)
-    hasnan = bool(np.isnan(e2).any())
-    # missing members (NaN given by the caller) are skipped by the ensemble statistic; every row must keep
-    # at least one valid member and every valid member must transform to a finite value
-    if not io.ok or te.shape != e2.shape or not np.all(np.isfinite(te[~np.isnan(e2)])) \
+    hasnan = bool(np.isnan(te).any())
+    # missing members - NaN given by the caller, or a member outside the domain of the transform (forward gives
+    # NaN) - are skipped by the ensemble statistic; every row must keep at least one valid member and every
+    # other member must transform to a finite value (no infinities)
+    if not io.ok or te.shape != e2.shape or np.isinf(te).any() \
             or not np.all(np.isfinite(te).sum(axis=1) >= 1):
         ctx.count("unjudged.forward_nonfinite")
         ctx.case(False)
@@ -1366,6 +1367,13 @@ def run_corrnan_unit(unit, ctx, M, tl):
                     ctx.case(False, n=0, sample={"kind": "corr", "trans": spec, "obs": encl(io.vals), "ens": ens})
                     first = False
                 check_corr(ctx, M, spec, T, io, ens)
+                if spec["name"] in ("Log", "BoxCox2", "Reciprocal") and len(hs) == 1:
+                    # the same hole made by a member outside the domain of the transform (no NaN in the raw ensemble)
+                    ens2 = [list(r) for r in base]
+                    for (i, j) in hs:
+                        ens2[i][j] = -float(spec["kw"].get("nu", 0.0)) - 1.5
+                    ctx.count("corr.ensembles_with_member_outside_transform_domain")
+                    check_corr(ctx, M, spec, T, io, ens2)
 
 
 def run_null_unit(unit, ctx, M, tl):
